@@ -36,6 +36,8 @@ def run(ctx, out):
         for ln in range(0, N + 1):
             ops.append(f"len.ser fixed:{N} {ln}")
     impl, model = ctx.pair(ops)
+    from ..flow import history_check
+    history_check(ctx, out, ops, impl, "length prefix")
     out.compare("len.ser", ops, impl, model)
     out.evaluations += len(ops)
     # oracle on the implementation alone: prefix = reference prefix
@@ -124,6 +126,8 @@ def run(ctx, out):
                         ops3.append(f"len.de {st} {a:02x}{b:02x}{c:02x}")
     impl3, model3 = ctx.pair(ops3)
     out.compare("len.de", ops3, impl3, model3)
+    # parsing is a pure function: the same prefixes again in look-alike order (05 directly before 00 05, 81 80 before 00 81 80, …)
+    history_check(ctx, out, de_ops + ops3, impl2 + impl3, "length prefix parser")
     out.evaluations += len(ops3)
     for o, r in zip(ops3, impl3):
         kind = r.split()[0] + (" " + r.split()[1] if r.startswith("err") else "")
